@@ -61,7 +61,13 @@ impl Deref for MaybeBorrowedPool {
 }
 
 fn create_pool() -> rayon::ThreadPool {
-    let num_threads = std::cmp::min(config_num_threads(), num_cpus::get_physical());
+    let physical_cores = num_cpus::get_physical();
+    // A request of zero threads would make rayon pick its own default (`RAYON_NUM_THREADS`
+    // or the logical CPU count), which can exceed the physical core count.
+    let num_threads = match config_num_threads() {
+        0 => physical_cores,
+        requested => std::cmp::min(requested, physical_cores),
+    };
 
     let no_pinning = config_bool("CFAVML_NO_PINNING");
     rayon::ThreadPoolBuilder::new()
